@@ -31,7 +31,23 @@ def c17_stats(cases, model):
                 if f[7] != "0" and f[6] != "0":
                     par["checks-later-alongside"] += 1
                 par["refused-before" if g[1] == "0" and f[4] != "0" else ("blocked-after" if g[3] == "1" else "open-after")] += 1
+    site = collections.Counter()
+    for c in cases:
+        blocked = set()
+        for o, i in zip(c["ops"], c.get("impl") or []):
+            f, g = o.split(), i.split()
+            if f[0] == "site" and len(f) == 5 and g:
+                good = f[4] in ("good", "goodold", "stale")
+                site["%s:%s" % (f[3], "good" if good else "bad")] += 1
+                site["answer=%s" % g[-1]] += 1
+                if g[0] == "refused":
+                    site["refused-with-good-credential" if good else "refused-with-bad-credential"] += 1
+                    blocked.add((f[2], f[3]))
+                elif (f[2], f[3]) in blocked:
+                    site["served-again-after-the-window"] += 1
+                    blocked.discard((f[2], f[3]))
     return dict(verdicts=_verdict_stats(cases, model), ops=dict(ops), impl_outcomes=dict(kinds), par=dict(par),
+                site=dict(site),
                 distinct_delays=len(delays), max_case_len=max(lens or [0]),
                 mean_case_len=round(sum(lens) / max(1, len(lens)), 1))
 
@@ -49,8 +65,9 @@ CONFIG = dict(
             "C17_spec_refused_iff", "C17_refused_records_nothing", "C17_spec_delay", "C17_independent",
             "C17_key_v6", "C17_key_raw", "C17_key_kinds", "C17_forgets", "C17_old_irrelevant",
             "C17_atomicity_facts", "C17_concurrent_no_record_lost", "C17_concurrent_failures_all_recorded",
-            "C17_concurrent_equals_sequential"]],
-        generated=["Throttle"],
+            "C17_concurrent_equals_sequential", "C17_site_facts", "C17_site_cfg", "C17_site_is_attempt",
+            "C17_site_blocked_refused", "C17_site_block_iff_window"]],
+        generated=["Throttle", "ThrottleSites"],
         harness=dict(pkg="signaling", test="TestVerifC17"),
         # delays marked `D:` by both sides: their pairing with failure counts depends on the interleaving
         canon=lambda s: re.sub(r" D:\S+", " D:*", s),
@@ -63,7 +80,14 @@ CONFIG = dict(
              "held by the harness, observed at rest: records, blocked, sorted delays), scripted window cases (records "
              "that expire between the check and the failures, checks alongside: the read-filter-write of "
              "CheckBruteforce), scripted openings k sequential + n concurrent failures around the threshold of ten "
-             "with random tails, plus all address pairs for key sharing; a case is non-trivial if the real throttler "
+             "with random tails, 'site' steps = one attempt sent to the real handler of its kind (room API request "
+             "through the BackendServer's router; internal / resuming hello over a websocket to the Hub, address from "
+             "X-Real-IP behind the trusted loopback) with a credential of a given class made by the harness (good, bad "
+             "checksum/token, unknown backend, old-style lookup, too short random, not-an-id, well-formed id of a session "
+             "that is gone), the Hub's throttler being the case's memoryThrottler: scripted openings 8-11 failures "
+             "(through the handler or directly) then every class of credential from the blocked address, its /64 "
+             "neighbour and strangers across the end of the 30 min window, and random site timelines; "
+             "plus all address pairs for key sharing; a case is non-trivial if the real throttler "
              "refused at least once, delayed at least three times or recorded at least two concurrent failures; "
              "distinct = distinct op lists",
         trusted_base=["net.ParseIP / IP.To4 / IP.To16 (address classification done by the harness with the standard library)",
@@ -75,6 +99,11 @@ CONFIG = dict(
                      "CheckBruteforce = read-locked read + at most one self-contained write-locked section (pruneEntries); "
                      "hence no interleaving of concurrent failures and checks loses a record "
                      "(C17_concurrent_no_record_lost, C17_concurrent_failures_all_recorded)",
+                     "call sites: the handlers' control-flow paths are regenerated as event sequences by a path-insensitive "
+                     "walk (loop bodies zero times or once, callees of hub.go/backend_server.go that consult the throttler or "
+                     "are handed the ThrottleFunc inlined); what counts as harmless before the consultation, as a rejection "
+                     "answer and as the resume exemption (hub.go NOTE: a well-formed resume id of an expired session is not "
+                     "throttled) is a hand-reviewed table (roomSpec/internalSpec/resumeSpec in Model/Throttle.lean)",
                      "C17_block_iff_window assumes a monotone clock and check+throttle not separated by another attempt of the same key/action"],
     )
 
@@ -86,14 +115,21 @@ MANIFEST = dict(
              "independence of keys/actions for every op sequence; forgetting after 12 h; in every interleaving of the "
              "critical sections of any number of concurrent failure recordings and checks the entry list is the full "
              "history minus a prefix of records some check found older than 12 h - no record is lost (sections "
-             "regenerated from the source per control-flow path). Tied to the code by facts extraction (constants, operators, lock "
-             "sections, write-back guard) plus a differential run of the real memoryThrottler with injected clock, "
-             "including goroutines recording failures at once, compared at rest.",
+             "regenerated from the source per control-flow path); the three call sites (room API checksum, internal token, "
+             "resume id) consult the throttler before looking at the credential, answer 429/too_many_requests and nothing "
+             "else when it reports a block, and call the returned function once, before answering, on exactly the "
+             "rejection paths (control-flow paths of the handlers regenerated from hub.go/backend_server.go), hence a "
+             "handled attempt is a whole attempt of the model and a blocked address is refused whatever it presents. "
+             "Tied to the code by facts extraction (constants, operators, lock "
+             "sections, write-back guard, handler paths) plus a differential run of the real memoryThrottler with injected clock, "
+             "including goroutines recording failures at once, compared at rest, and of the real handlers (BackendServer "
+             "router, Hub over websocket) with good and bad credentials made by the harness.",
         note="Trusted: Lean kernel, extractor, harness/comparison, net.ParseIP; unbounded-Int time; mutex sections atomic. "
              "The stale write-back of CheckBruteforce (a failure recorded between its read and its pruned write-back "
              "was lost) was reproduced on the real code and repaired in /repo ab87e57; the split program survives "
              "as a proved counter-example only.",
         technique="Lean 4 proof (refinement of the entry-list model to a counting spec by induction over op lists; "
-                  "invariant over all schedules of the regenerated critical sections) + regenerated constants and "
-                  "lock sections + differential correspondence with concurrent steps",
+                  "invariant over all schedules of the regenerated critical sections) + regenerated constants, "
+                  "lock sections and call-site paths + differential correspondence with concurrent steps and "
+                  "through the real handlers",
     )
